@@ -466,6 +466,10 @@ func c16RandRune(rg *Rng, m c16Mode, near []rune) rune {
 	}
 }
 
+// how often a complement-shaped range is drawn under IgnoreCase (the extracted model then folds all 1.1M code
+// points of the class): a few per run in the quick tier (the deterministic corpus always has them), 40% in the thorough tier
+var c16CiComplementPct = 6
+
 func c16GenSyn(rg *Rng, m c16Mode, depth int) *c16Syn {
 	s := &c16Syn{neg: rg.Chance(30)}
 	n := 1 + rg.Intn(4)
@@ -503,7 +507,7 @@ func c16GenSyn(rg *Rng, m c16Mode, depth int) *c16Syn {
 			}
 			near = append(near, a, b)
 			s.items = append(s.items, c16Item{kind: c16Range, a: a, b: b})
-		case x < 68 && (!m.ci || rg.Chance(40)): // complement-shaped ranges: exercise canonicalize's normal forms
+		case x < 68 && (!m.ci || rg.Chance(c16CiComplementPct)): // complement-shaped ranges: exercise canonicalize's normal forms
 			g := c16RandRune(rg, m, near)
 			if m.ci {
 				// IgnoreCase domain: everything but a run of at most three ASCII characters (the range up to U+10FFFF
@@ -605,6 +609,9 @@ func bitsOf(rs []rune, f func(rune) bool) []int64 {
 
 func legC16Class(c *Ctx) {
 	c16Setup()
+	if c.Thorough {
+		c16CiComplementPct = 40
+	}
 	c.Rule("random bracket expressions (1-12 members: characters, ranges, complement-shaped ranges, \\d\\s\\w\\D\\S\\W, \\p{..}/\\P{..} over 40 category/script/property names, POSIX names under RE2, negation, nested subtraction to depth 3) x modes {none, IgnoreCase, ECMAScript, RE2, IgnoreCase+ECMAScript, IgnoreCase+RE2} x ASCII bitmap on/off x runes {U+0000-U+024F, every range endpoint +-1 of the expression and of the parsed class, edge runes, sampled BMP/astral/surrogates, U+10FFFF}; under IgnoreCase ranges have ASCII endpoints or are complement-shaped (everything but a run of 1-3 ASCII characters, [\\x01-\\x{10FFFF}], [\\x00-\\x{10FFFE}], [\\x00-\\x{10FFFF}]: the classes canonicalize rewrites to a negated normal form after case folding; for these the model gets SimpleFold/ToLower of every code point), single members are ASCII or plain upper/lower pairs of ASCII/Latin-1/Greek/Cyrillic; non-trivial = a class with at least two members, negation or subtraction (distinct by pattern text and mode)")
 	nClasses := c.N(50, 1250) // per leg and mode family; four legs run in parallel
 	nSample := c.N(2000, 10000)
@@ -630,8 +637,12 @@ func legC16Class(c *Ctx) {
 	if c.Leg == "c16-class-0" {
 		c.Gate("ci-flipped-after-fold", gates["ci-flipped-after-fold"])
 	}
-	for _, g := range []string{"binary-search", "subtraction", "nested-subtraction", "negated", "anything", "category", "negated-category", "posix", "bitmap-nonempty", "singleton", "singleton-inverse", "linear-scan", "ci-complement"} {
+	for _, g := range []string{"binary-search", "subtraction", "nested-subtraction", "negated", "anything", "category", "negated-category", "posix", "bitmap-nonempty", "singleton", "singleton-inverse", "linear-scan"} {
 		c.Gate(g, gates[g])
+	}
+	if c.Leg == "c16-class-0" || c.Thorough {
+		// (the quick tier draws few of these at random: the deterministic corpus of leg 0 always has them)
+		c.Gate("ci-complement", gates["ci-complement"])
 	}
 }
 
